@@ -7,9 +7,15 @@ int strcmp(const char* a, const char* b) { for (;; ++a, ++b) { unsigned char x =
 void* memchr(const void* s, int c, size_t n) { const unsigned char* p = (const unsigned char*)s; for (size_t i = 0; i < n; ++i) if (p[i] == (unsigned char)c) return (void*)(p + i); return 0; }
 /* <ctype.h> for the "C" locale */
 int isspace(int c) { return c == ' ' || (c >= '\t' && c <= '\r'); }
+int isblank(int c) { return c == ' ' || c == '\t'; }
 int isdigit(int c) { return c >= '0' && c <= '9'; }
 int isalpha(int c) { return (c >= 'a' && c <= 'z') || (c >= 'A' && c <= 'Z'); }
 int isalnum(int c) { return isdigit(c) || isalpha(c); }
+int isupper(int c) { return c >= 'A' && c <= 'Z'; }
+int islower(int c) { return c >= 'a' && c <= 'z'; }
+int ispunct(int c) { return c > ' ' && c < 127 && !isalnum(c); }
+int isprint(int c) { return c >= ' ' && c < 127; }
+int isxdigit(int c) { return isdigit(c) || (c >= 'a' && c <= 'f') || (c >= 'A' && c <= 'F'); }
 int toupper(int c) { return (c >= 'a' && c <= 'z') ? c - 32 : c; }
 int tolower(int c) { return (c >= 'A' && c <= 'Z') ? c + 32 : c; }
 void* memmove(void* d, const void* s, size_t n);
